@@ -76,6 +76,8 @@ class IncRow:
         k = _colkind(cols)
         if k == 'dt':
             raise NotImplementedError('assignment to dt')
+        if _key(val) is _key(self[cols]):
+            return          # assigning a column group to itself: the row is unchanged
         self.d.cols = dict(self.d.cols)
         if self.d.scale is not None:
             raise NotImplementedError('assignment to scaled row')
@@ -196,6 +198,8 @@ class IncFrame:
 
     def __setitem__(self, cols, val):
         k = _colkind(cols)
+        if k != 'dt' and _key(val) is self[cols].key():
+            return          # assigning a column group to itself: the table is unchanged
         new = []
         for j, r in enumerate(self.rows):
             c = dict(r.cols)
@@ -307,7 +311,7 @@ class IntegratorModel:
         self.with_altitude = with_altitude
         self.times = [pva.name]
         self.states = [PvaTok('init', _key(pva), with_altitude, name=pva.name)]
-        h.log.append(('init', pva.name))
+        h.log.append(('init', pva.name, with_altitude))
 
     def get_time(self):
         return self.times[-1]
@@ -316,7 +320,7 @@ class IntegratorModel:
         return self.states[-1]
 
     def set_pva(self, p):
-        self.h.log.append(('set_pva', self.times[-1], _key(p)))
+        self.h.log.append(('set_pva', self.times[-1], _key(p), _key(self.states[-1])))
         self.states[-1] = PvaTok('given', _key(p), name=self.times[-1])
 
     def predict(self, inc):
@@ -386,7 +390,7 @@ class ErrorModelStandIn:
         self.n_states = 9 if with_altitude else 7
 
     def correct_pva(self, pva, x):
-        return PvaTok('correct_pva', _key(pva), _key(x), name=getattr(pva, 'name', None))
+        return PvaTok('correct_pva', _key(pva), _key(x), self.with_altitude, name=getattr(pva, 'name', None))
 
 
 class SensorModel:
